@@ -54,6 +54,8 @@ def standins(tier, seed):
     pairs = [[dict(signature=[1, -1]), dict(signature=[-1, 1]), 'signature order'], [dict(p=2), dict(p=2, start_index=0), 'start_index'],
              [dict(p=2), dict(p=1, q=1), 'p,q'], [dict(p=3), dict(p=3, basis=['e', 'e1', 'e2', 'e3', 'e12', 'e31', 'e23', 'e123']), 'basis'],
              [dict(p=2, q=0, r=1), dict(p=2, q=1, r=0), 'r vs q'], [dict(p=2), dict(p=3), 'dimension'],
-             [dict(signature=[0, 1, 1]), dict(signature=[1, 1, 0]), 'signature order (null generator position)']]
-    jobs.append({'name': 'reject', 'bound': '7 pairs of algebras differing in signature order / start_index / p,q,r / basis / dimension', 'job': {'kind': 'reject', 'module': 'standins.jobs5', 'pairs': pairs}})
+             [dict(signature=[0, 1, 1]), dict(signature=[1, 1, 0]), 'signature order (null generator position)'],
+             [dict(p=3), dict(p=3, basis=['e', 'e2', 'e1', 'e3', 'e12', 'e13', 'e23', 'e123']), 'same blade names, generators in another order'],
+             [dict(name='2DPGA'), dict(p=2, q=0, r=1, basis=['e', 'e0', 'e1', 'e2', 'e20', 'e01', 'e12', 'e012']), 'same blade names as 2DPGA, generators in another order']]
+    jobs.append({'name': 'reject', 'bound': '9 pairs of algebras differing in signature order / start_index / p,q,r / basis (spelling, generator order) / dimension', 'job': {'kind': 'reject', 'module': 'standins.jobs5', 'pairs': pairs}})
     return jobs
